@@ -473,7 +473,7 @@ static void libc_probe(int idx) {
 #define QUAR_POISON(p, n) ((void)0)
 #define QUAR_UNPOISON(p, n) ((void)0)
 #endif
-struct Quar { void *p; size_t size; int task; };
+struct Quar { void *p; size_t size; int task; uint8_t fill; };
 static std::vector<Quar> g_quar;
 NOSAN static void rz_fill(void *p, size_t size) { memset((uint8_t *)p + size, 0xA5, HEAP_RZ); }
 NOSAN static bool rz_ok(const void *p, size_t size) {
@@ -500,13 +500,30 @@ static uint32_t quarantine_flush(int tid) {
         const uint8_t *b = (const uint8_t *)g_quar[i].p;
         QUAR_UNPOISON(g_quar[i].p, g_quar[i].size + HEAP_RZ);
         bool ok = true;
-        for (size_t k = 0; k < g_quar[i].size + HEAP_RZ && ok; k++) ok = b[k] == 0xDD;
+        for (size_t k = 0; k < g_quar[i].size + HEAP_RZ && ok; k++) ok = b[k] == g_quar[i].fill;
         if (!ok) bad++;
         free(g_quar[i].p);
         forget_freed(g_quar[i].p);
         g_quar.erase(g_quar.begin() + i);
     }
     return bad;
+}
+static void quarantine_block(Task *t, void *p, size_t size) {
+    memset(p, 0xDD, size + HEAP_RZ);
+    QUAR_POISON(p, size + HEAP_RZ); // ASan variant: any access by the library is reported at once
+    g_quar.push_back({p, size, t->id, 0xDD});
+}
+// Another task has just been given memory: what a released block of THIS task's call holds from now on is up to that
+// task (the allocator may have handed it the very block). The released blocks of all other tasks' calls in progress
+// change their contents, so a call that still reads a block it has released gets something else than when run alone.
+static void scribble_foreign_quarantine(Task *t) {
+    for (auto &q : g_quar)
+        if (q.task != t->id && q.fill != 0x00) {
+            QUAR_UNPOISON(q.p, q.size + HEAP_RZ);
+            memset(q.p, 0x00, q.size + HEAP_RZ);
+            QUAR_POISON(q.p, q.size + HEAP_RZ);
+            q.fill = 0x00;
+        }
 }
 struct AllocCall {
     int kind; // 0 malloc, 1 calloc, 2 realloc, 3 free
@@ -526,9 +543,7 @@ static void alloc_body(void *p_) {
             AllocRec *rec = live_rec(c->old);
             if (rec && rec->guarded) {
                 if (!rz_ok(rec->p, rec->size)) { t->res[t->cur_op].heap_overrun++; sim_log(LOG_FAULT, 10, 0); }
-                memset(rec->p, 0xDD, rec->size + HEAP_RZ);
-                QUAR_POISON(rec->p, rec->size + HEAP_RZ); // ASan variant: any access by the library is reported at once
-                g_quar.push_back({rec->p, rec->size, t->id});
+                quarantine_block(t, rec->p, rec->size);
                 untrack(c->old);
                 g_freed.push_back(c->old);
                 t->in_op = save;
@@ -566,6 +581,7 @@ static void alloc_body(void *p_) {
             rz_fill(c->result, n);
             forget_freed(c->result);
             g_live.push_back({c->result, n, s, t->id, t->cur_op, true});
+            scribble_foreign_quarantine(t);
         }
     } else {
         if (c->a == 0 && c->old) { // realloc(p, 0) releases p (glibc)
@@ -598,13 +614,28 @@ static void alloc_body(void *p_) {
         }
         if (c->a > (size_t)1 << 40) { errno = ENOMEM; t->in_op = save; return; }
         if (!c->result) {
-            if (old && rec) untrack(old);
-            c->result = realloc(old, c->a + HEAP_RZ);
+            if (old && rec && rec->guarded) {
+                // a successful realloc always moves the block (it may): the old block is released - poisoned and
+                // quarantined like any released block - so a pointer into it that the library keeps using shows
+                void *np = malloc(c->a + HEAP_RZ);
+                if (np) {
+                    size_t osz = rec->size;
+                    memcpy(np, old, osz < c->a ? osz : c->a);
+                    untrack(old);
+                    quarantine_block(t, old, osz);
+                    g_freed.push_back(old);
+                    c->result = np;
+                }
+            } else {
+                if (old && rec) untrack(old);
+                c->result = realloc(old, c->a + HEAP_RZ);
+            }
         }
         if (c->result) {
             rz_fill(c->result, c->a);
             forget_freed(c->result);
             g_live.push_back({c->result, c->a, s, owner_task, owner_op, true});
+            scribble_foreign_quarantine(t);
         }
     }
     t->in_op = save;
@@ -637,7 +668,7 @@ void *__wrap_realloc(void *old, size_t n) {
     alt_call(alloc_body, &c);
     void *r = c.result;
     c.result = nullptr;
-    on_event();
+    sim_conflict_point(); // the heap is process-wide: what becomes of the old block is up to whoever allocates next
     return r;
 }
 void __wrap_free(void *p) {
@@ -650,7 +681,7 @@ void __wrap_free(void *p) {
     }
     AllocCall c = {3, 0, 0, p, 0, nullptr};
     alt_call(alloc_body, &c);
-    on_event();
+    sim_conflict_point();
 }
 
 // ---- locks taken by library code. The unchanged library has none, but a change may add one. Under a serialising
